@@ -43,6 +43,10 @@ var c01Corpus = []string{
 	// B24: a local binding named like a static function
 	"let abs = x -> x + a; abs(0 - 3)",
 	"func sqr(x) x + 1; sqr(a)",
+	// wrong argument counts at every kind of call site (closure value, func, map-field closure through method syntax, built-in method)
+	"try (x -> x + a)(1, 2) catch 0 - 1", "try ((x, y) -> x + a)(1) catch 0 - 1", "func f(x) x + a; try f(1, 2) catch 0 - 1", "func f(x, y) x + a; try f(1) catch 0 - 1",
+	"try {f: x -> x + a}.f(1, 2) catch 0 - 1", "try {f: (x, y) -> x + a}.f(1) catch 0 - 1", "let mm = {f: x -> x + a, g: 1}; [try mm.f() catch 0 - 1, try mm.f(1, 2, 3) catch 0 - 2, mm.f(4)]",
+	"try l.size(1) catch 0 - 1", "try l.map() catch 0 - 1", "try l.map(e -> e, 2).size() catch 0 - 1", "try abs() catch 0 - 1", "try abs(a, 2) catch 0 - 1", "try l.map((x, y) -> x).size() catch 0 - 1",
 	"(max -> max(2))(e -> e * a)",
 	// closures three levels deep mixing captured arguments, lets and outer parameters
 	"let k = a + 1; (x -> (y -> (z -> x + y + z + k + a)(3))(2))(1)",
